@@ -28,9 +28,10 @@ func init() {
 var spxProps = map[string][]string{
 	"C01": {"S1", "S2", "S9"},
 	"C09": {"S14", "S9"},
+	"C13": {"S16", "S9"},
 	"C06": {"S4", "S10"},
 	"C10": {"S3", "S4", "S13"},
-	"C17": {"S1", "S2", "S3", "S4", "S9", "S10", "S13", "S14"},
+	"C17": {"S1", "S2", "S3", "S4", "S9", "S10", "S13", "S14", "S16"},
 	"C18": {"S1", "S6"},
 	"C02": {"S5", "S8"},
 	"C07": {"S8"},
@@ -288,6 +289,11 @@ func spxServerRules(x *spxInst, sc *spxScenario, prop string, add func(rule, sha
 		}
 		if len(h.ProtoErrs) > 0 {
 			add("response-not-intact", "framing", strings.Join(h.ProtoErrs, "; "))
+		}
+	case "C13":
+		// one slot: never two handlers at once, whatever the peer resets
+		if h.MaxRunning > 1 {
+			add("handlers-above-max-concurrent-streams", "", fmt.Sprintf("%d handlers were running at once with MaxConcurrentStreams=1 (dispatched: %v)", h.MaxRunning, h.DispatchedIDs()))
 		}
 	case "C18":
 		// one ACK for the one SETTINGS frame; the first header block after it starts with a size update <= 100
